@@ -42,6 +42,51 @@ theorem blockmap_multilabel_empty_counterexample :
   · simp [decode, blocksOf, decodeMap, hasDyn, impliedType]; rfl
   · rfl
 
+/-- The places where the code hands values of different types to `cty.MapVal` are crashes of the model (so the
+    theorem above says nothing about them), and the map takes the type of its values, not the declared one:
+    `b { x = 1, y = "s" }` under `BlockAttrsSpec{b, any}` panics; `b { x = 1, y = <cty.DynamicVal> }` is a
+    `map(number)` whose `y` is an unknown number. -/
+theorem blockattrs_dynamic_examples :
+    decode (.blockAttrs "b" .dyn false) []
+        [.mk "b" [] [⟨"x", .num {} 1, false⟩, ⟨"y", .str {} "s", false⟩] []] [] = .crash "inconsistent map element types" ∧
+    decode (.blockAttrs "b" .dyn false) [] [.mk "b" [] [⟨"x", .num {} 1, false⟩, ⟨"y", Val.dynVal, true⟩] []] [] =
+      .ok (.map {} .num [("x", .num {} 1), ("y", .unk {} .num)]) true := by
+  have h1 : (Ty.num == Ty.dyn) = false := rfl
+  have h2 : (Ty.str == Ty.dyn) = false := rfl
+  have h3 : (Ty.str == Ty.num) = false := rfl
+  have h4 : (Ty.dyn == Ty.dyn) = true := rfl
+  have h5 : (Ty.num == Ty.num) = true := rfl
+  constructor
+  · simp [decode, blocksOf, DBlock.type, DBlock.attrs, Proofs.convert_dyn, hasDyn, insertSorted, mapVal, mapElemTy,
+      Val.typeOf, h1, h2, h3]
+  · simp [decode, blocksOf, DBlock.type, DBlock.attrs, Proofs.convert_dyn, hasDyn, insertSorted, mapVal, mapElemTy,
+      retype, Val.typeOf, Val.dynVal, h1, h4, h5]
+    rfl
+
+/-- Likewise for a BlockMap whose elements differ in type (here through a DefaultSpec outside `wf`):
+    `b "k" { a = "a" }` + `b "l" {}` under `BlockMapSpec{b, [key], Default{Attr{a, string}, Literal{1}}}` panics. -/
+theorem blockmap_mixed_example :
+    decode (.blockMap "b" 1 (.default (.attr "a" .str false) (.literal (.num {} 1)))) []
+      [.mk "b" ["k"] [⟨"a", .str {} "a", false⟩] [], .mk "b" ["l"] [] []] [] = .crash "inconsistent map element types" := by
+  have h1 : convert (.str {} "a") .str = .ok (.str {} "a") := Proofs.convert_self _ _ rfl
+  have h2 : (Ty.str == Ty.dyn) = false := rfl
+  have h3 : (Ty.num == Ty.dyn) = false := rfl
+  have h4 : (Ty.num == Ty.str) = false := rfl
+  simp [decode, blocksOf, decodeMap, mtInsert, lookupKey, insertSorted, mtVal, mtVals, mapVal, mapElemTy, DBlock.type,
+    DBlock.attrs, DBlock.blocks, DBlock.labels, findAttr, h1, h2, h3, h4, Val.typeOf, impliedType, hasDyn, Val.isNull]
+
+/-- Without label names BlockMap / BlockObject panic only on meeting a block (`Labels[:len(LabelNames)-1]`). -/
+theorem no_label_names_examples :
+    decode (.blockMap "b" 0 (.attr "a" .str false)) [] [] [] = .ok (.map {} .str []) false ∧
+    decode (.blockObject "b" 0 (.attr "a" .str false)) [] [] [] = .ok (.object {} []) false ∧
+    decode (.blockMap "b" 0 (.attr "a" .str false)) [] [.mk "b" [] [] []] [] = .crash "BlockMapSpec without labels" ∧
+    decode (.blockObject "b" 0 (.attr "a" .str false)) [] [.mk "b" [] [] []] [] = .crash "BlockObjectSpec without labels" := by
+  refine ⟨?_, ?_, ?_, ?_⟩
+  · simp [decode, blocksOf, decodeMap, hasDyn, impliedType]; rfl
+  · simp [decode, blocksOf, decodeMap, mtObj, mtObjs]; rfl
+  · simp [decode, blocksOf, DBlock.type, hasDyn, impliedType]
+  · simp [decode, blocksOf, DBlock.type]
+
 /-- non-vacuity: a spec using most kinds, decoded from a perturbed body (missing attribute, extra block) -/
 example :
     (match decode (.object [("l", .blockList "svc" (.object [("n", .attr "name" .str true), ("id", .blockLabel 0)]) 0 0),
@@ -55,13 +100,14 @@ example :
   -- whether or not "7" converts to a number (`classifyNumStr`), the attribute's value has type number
   have hc : ∀ v, convert (.str {} "7") .num = .ok v → v.typeOf = .num := fun v h =>
     Proofs.conforms_eq _ _ (Proofs.convert_conforms _ _ _ h) rfl
+  have hnd : (Ty.num == Ty.dyn) = false := rfl
   rcases hr : convert (.str {} "7") .num with e | v
   · simp [decode, decodeFields, blocksOf, decodeBlocks, decodeMap, mtInsert, lookupKey, insertSorted, mtVal, mtVals,
-      DBlock.type, DBlock.attrs, DBlock.blocks, DBlock.labels, findAttr, h1, hr, Val.typeOf, impliedType, hasDyn,
+      mapVal, mapElemTy, hnd, DBlock.type, DBlock.attrs, DBlock.blocks, DBlock.labels, findAttr, h1, hr, Val.typeOf, impliedType, hasDyn,
       Val.isNull, Val.typeOfFields, Proofs.ty_beq_refl]
   · have := hc v hr
     simp [decode, decodeFields, blocksOf, decodeBlocks, decodeMap, mtInsert, lookupKey, insertSorted, mtVal, mtVals,
-      DBlock.type, DBlock.attrs, DBlock.blocks, DBlock.labels, findAttr, h1, hr, Val.typeOf, impliedType, hasDyn,
+      mapVal, mapElemTy, hnd, DBlock.type, DBlock.attrs, DBlock.blocks, DBlock.labels, findAttr, h1, hr, Val.typeOf, impliedType, hasDyn,
       Val.isNull, Val.typeOfFields, Proofs.ty_beq_refl, this]
 
 end HclModel.Dec
